@@ -261,7 +261,15 @@ func (o *ovsdbClient) connect(ctx context.Context, reconnect bool) error {
 		if err != nil {
 			return err
 		}
-		if sid, err := o.tryEndpoint(ctx, u); err != nil {
+		// when reconnecting every endpoint has the whole timeout: one that
+		// hangs does not use up the time of those after it
+		epCtx, cancel := ctx, context.CancelFunc(func() {})
+		if reconnect {
+			epCtx, cancel = context.WithTimeout(context.Background(), o.options.timeout)
+		}
+		sid, err := o.tryEndpoint(epCtx, u)
+		cancel()
+		if err != nil {
 			o.resetRPCClient()
 			connectErrors = append(connectErrors,
 				fmt.Errorf("failed to connect to %s: %w", endpoint.address, err))
@@ -290,6 +298,10 @@ func (o *ovsdbClient) connect(ctx context.Context, reconnect bool) error {
 	// if we're reconnecting, re-start all the monitors
 	if reconnect {
 		o.logger.V(3).Info("reconnected - restarting monitors")
+		// so have the monitors
+		var cancel context.CancelFunc
+		ctx, cancel = context.WithTimeout(context.Background(), o.options.timeout)
+		defer cancel()
 		for dbName, db := range o.databases {
 			db.monitorsMutex.Lock()
 			defer db.monitorsMutex.Unlock()
